@@ -237,16 +237,9 @@ class Run(DoitCmdBase):
 
         # run
         try:
-            if isinstance(reporter_cls, type):
-                reporter_obj = reporter_cls(
-                    outstream, {'failure_verbosity': failure_verbosity})
-            else:  # also accepts reporter instances
-                reporter_obj = reporter_cls
-
-            stream = Stream(verbosity, force_verbosity)
-            run_args = [self.dep_manager, reporter_obj,
-                        continue_, always, stream]
-
+            # select the runner before the reporter is created: a reporter
+            # might take over sys.stdout/sys.stderr when it is created (json),
+            # an invalid option must be reported before that
             if num_process == 0:
                 RunnerClass = Runner
             else:
@@ -262,6 +255,17 @@ class Run(DoitCmdBase):
                 else:
                     msg = "Invalid parallel type %s"
                     raise InvalidCommand(msg % par_type)
+
+            if isinstance(reporter_cls, type):
+                reporter_obj = reporter_cls(
+                    outstream, {'failure_verbosity': failure_verbosity})
+            else:  # also accepts reporter instances
+                reporter_obj = reporter_cls
+
+            stream = Stream(verbosity, force_verbosity)
+            run_args = [self.dep_manager, reporter_obj,
+                        continue_, always, stream]
+            if num_process != 0:
                 run_args.append(num_process)
 
             runner = RunnerClass(*run_args)
